@@ -4,4 +4,5 @@ from checks import c01
 def run(tier, seed):
     return c01.run(tier, seed, pid='C02', db='zonedb')
 
-replay = c01.replay
+def replay(path):
+    return c01.replay(path, pid='C02', db='zonedb')
